@@ -995,12 +995,12 @@ func urlUnescape(s string) (string, error) { return url.QueryUnescape(s) }
 // vBigToken answers the token endpoint with multi-kilobyte tokens so that the cookie store splits.
 func vBigToken(nonce string) func(url.Values) (int, string, string, error) {
 	return func(url.Values) (int, string, string, error) {
-		ex := map[string]interface{}{"pad": strings.Repeat("Zq9_", 500)}
+		ex := map[string]interface{}{"pad": vIncompressible(2000)}
 		if nonce != "" {
 			ex["nonce"] = nonce
 		}
 		id := vJWT(vKeyRSA, "RS256", vClaims("user@example.com", ex))
-		return 200, "application/json", vTokenJSON(id, "at-"+strings.Repeat("aB3-", 700), "rt-big", 3600), nil
+		return 200, "application/json", vTokenJSON(id, "at-"+vIncompressible(2800), "rt-big", 3600), nil
 	}
 }
 
